@@ -326,7 +326,8 @@ def builder(chk, P):
     chk.ob("C09.O7", "a definition becomes a multi-range potential", ok, site=site, found=pot, expect="Multi_Range_Potential_Form",
            key="C09.O7|multirange")
     if ok:
-        rng = [(d.attrs["_range_type"].v, int(d.attrs["_start"].const()), d.attrs["_potential_form"].path[1]) for d in pot.attrs["_range_defns"].items]
+        rng = [(I.getattr(d, "range_type").v, int(I.getattr(d, "start").const()), I.getattr(d, "potential_form").path[1])
+               for d in I.as_iterable(I.getattr(pot, "range_defns")).items]
         chk.ob("C09.O7", "its ranges are the listed forms with their markers and starts", rng == [(">", 0, "as.a"), (">=", 2, "as.b"), (">", 4, "as.c")],
                site=site, found=rng, expect="as.a >0, as.b >=2, as.c >4", key="C09.O7|ranges")
     chk.ob("C09.O7", "each form factory receives its parameters positionally, in order",
@@ -351,8 +352,8 @@ def builder(chk, P):
     pbi = InstV(pb)
     pbi.attrs["log_section_name"] = Const("Pair")
     potobj = W.run_method(I, pbi, "_create_potential", [row, PyObjV(PFB())])
-    ok = isinstance(potobj, InstV) and potobj.attrs["_speciesA"].v == "O" and potobj.attrs["_speciesB"].v == "U" \
-        and potobj.attrs["_potentialFunction"].key() == Opaque(("built", W.param("defn").key())).key()
+    ok = isinstance(potobj, InstV) and I.getattr(potobj, "speciesA").v == "O" and I.getattr(potobj, "speciesB").v == "U" \
+        and I.getattr(potobj, "potentialFunction").key() == Opaque(("built", W.param("defn").key())).key()
     chk.ob("C09.O7", "a [Pair] row 'O-U : DEFN' becomes Potential('O', 'U', function of DEFN)", ok, site=pb.lookup("_create_potential").site(),
            found=potobj.attrs if isinstance(potobj, InstV) else potobj, expect="Potential(O, U, built(defn))", key="C09.O7|pair-row")
 
